@@ -2,7 +2,7 @@
 import os, sys, json, subprocess, tempfile, shutil, glob
 
 
-def build_and_run(replayer, kv_path, repo, verif, defines=()):
+def build_and_run(replayer, kv_path, repo, verif, defines=(), entry=''):
     src = os.path.join(verif, "replay", replayer + ".c")
     if not os.path.exists(src):
         return None, "no replayer " + replayer
@@ -16,10 +16,10 @@ def build_and_run(replayer, kv_path, repo, verif, defines=()):
         p = subprocess.run(cmd, stdout=subprocess.PIPE, stderr=subprocess.STDOUT, timeout=300)
         if p.returncode != 0:
             return None, "replayer does not build: " + p.stdout.decode("utf-8", "replace")[-800:]
-        env = dict(os.environ, ASAN_OPTIONS="detect_leaks=1:abort_on_error=0", UBSAN_OPTIONS="print_stacktrace=1")
-        p = subprocess.run([exe, kv_path], stdout=subprocess.PIPE, stderr=subprocess.STDOUT, timeout=120, env=env)
+        env = dict(os.environ, ASAN_OPTIONS="detect_leaks=0:abort_on_error=0", UBSAN_OPTIONS="print_stacktrace=1")
+        p = subprocess.run([exe, kv_path, entry], stdout=subprocess.PIPE, stderr=subprocess.STDOUT, timeout=120, env=env)
         out = p.stdout.decode("utf-8", "replace")
-        if "REPRODUCED" in out.replace("NOT-REPRODUCED", "") or "ERROR: AddressSanitizer" in out or "runtime error:" in out or "LeakSanitizer" in out:
+        if "REPRODUCED" in out.replace("NOT-REPRODUCED", "") or "ERROR: AddressSanitizer" in out or "runtime error:" in out:
             return True, out[-1500:]
         if "NOT-REPRODUCED" in out:
             return False, out[-800:]
@@ -38,7 +38,7 @@ def run(replayer, replay_path, repo, verif):
     rec = json.load(open(replay_path))
     kv = replay_path[:-5] + ".kv"
     kv_from_record(rec, kv)
-    ok, out = build_and_run(replayer, kv, repo, verif, rec.get("defines", []))
+    ok, out = build_and_run(replayer, kv, repo, verif, rec.get("defines", []), rec.get("entry", ""))
     rec["native_replay"] = {"replayer": replayer, "reproduced": ok, "output": out}
     json.dump(rec, open(replay_path, "w"), indent=1)
     return ok
